@@ -2,7 +2,7 @@
    recorded from the real Executor / QNodeController (correspondence, H-tie).
    Proof-free. *)
 From Coq Require Import ZArith List Bool.
-From NQ Require Import Exec.Qmem.
+From NQ Require Import Exec.Qmem Exec.QmemStop.
 Import ListNotations.
 Open Scope Z_scope.
 
@@ -81,16 +81,18 @@ Definition obs_ok (r : state * outcome) (ob : obs) : bool :=
   list_eqb pair_eqb (sort_set (shreg s)) (o_shreg ob).
 
 (* ---------------------------------------------------------------- histories as a prefix tree *)
-Inductive tcase := T (id : Z) (o : op) (ob : obs) (kids : list tcase).
+Inductive tcase := T (id : Z) (e : xev) (ob : obs) (kids : list tcase).
 
 (* ids of the nodes at which model and implementation first differ on a path *)
-Fixpoint bad_t (s : state) (t : tcase) : list Z :=
+(* events are those of Exec/QmemStop.v: uninterrupted operations (XOp) and the steps of a
+   StopAppMessage handler that is suspended at its yields *)
+Fixpoint bad_t (xs : xstate) (t : tcase) : list Z :=
   match t with
-  | T id o ob kids =>
-      let r := step s o in
+  | T id e ob kids =>
+      let r := xstep xs e in
       (* o_out = -1: the implementation was not observable after this operation (it ran
          between two yield points of an interleaved subroutine): apply it, compare later *)
-      if (o_out ob =? -1) || obs_ok r ob then flat_map (bad_t (fst r)) kids else [id]
+      if (o_out ob =? -1) || obs_ok (x_st (fst r), snd r) ob then flat_map (bad_t (fst r)) kids else [id]
   end.
 
-Definition failing (ts : list tcase) : list Z := flat_map (bad_t init_state) ts.
+Definition failing (ts : list tcase) : list Z := flat_map (bad_t xinit) ts.
